@@ -435,14 +435,24 @@ def _log_with(rt, target, ms):
     import eliot
 
     kw = rt.kwargs(ms["fields"])
+    # the same logging call has several spellings in the public API (some deprecated); rotate through them
+    variant = len(rt.api) % 3
     if ms.get("sers") is not None:
         mt = eliot.MessageType(ms["mtype"], [rt.field(k, sid) for k, sid in ms["sers"]])
         if target is None:
+            if variant == 1:
+                return api(rt, "MessageType()().write", lambda: mt(**kw).write())
             return api(rt, "MessageType.log", mt.log, **kw)
         kw["__eliot_serializer__"] = mt._serializer
         return api(rt, "Action.log(typed)", target.log, ms["mtype"], **kw)
     if target is None:
+        if variant == 1 and "message_type" not in kw:
+            return api(rt, "Message.log", eliot.Message.log, message_type=ms["mtype"], **kw)
+        if variant == 2 and "message_type" not in kw:
+            return api(rt, "Message.new().bind().write", lambda: eliot.Message.new(message_type=ms["mtype"]).bind(**kw).write())
         return api(rt, "log_message", eliot.log_message, ms["mtype"], **kw)
+    if variant == 1 and "message_type" not in kw:
+        return api(rt, "Message.write(action=)", lambda: eliot.Message.new(message_type=ms["mtype"], **kw).write(action=target))
     return api(rt, "Action.log", target.log, ms["mtype"], **kw)
 
 
